@@ -518,7 +518,38 @@ class Ctx:
         oc.outd, oc.ind = outd, d
         return oc
 
+    def run_asmformat_multi(self, fmt, subprocess_seed=None):
+        """asm-format with several input files: one output holding all of them, in argument order."""
+        srcs = []
+        for key in ("w1", "w2"):
+            wl = self.case[key]
+            d, asm, prt = self.stage(key)
+            srcs.append(prt if wl["kind"] == "fasta" else asm)
+        d = os.path.join(self.root, "in_odd")
+        if not os.path.isdir(d):
+            os.makedirs(d)
+            Path(os.path.join(d, "odd.tpf")).write_text(self.ODD_TPF)
+            self.world.stamp_path(os.path.join(d, "odd.tpf"))
+        srcs.append(os.path.join(d, "odd.tpf"))
+        srcs.append(srcs[0])  # the same file twice is legal too
+        outd = self.new_out()
+        args = [*srcs, "-o", os.path.join(outd, f"all.{fmt}")]
+        if subprocess_seed is not None:
+            p = self.run_subprocess("asm_format", args, subprocess_seed)
+            oc = Outcome(p.returncode, self.collect(outd, d), p.stderr)
+        else:
+            r, _trace = self.run_inproc(self.af.cli, args, "asm-format")
+            oc = Outcome(r.code, self.collect(outd, d), r.stderr)
+        oc.outd, oc.ind = outd, d
+        return oc
+
     def dim_asmformat(self, ref):
+        fmt = "agp" if self.case["hist_seed"] % 2 else "tpf"
+        base = self.run_asmformat_multi(fmt)
+        for seed in sorted(set(self.case["seeds"] + [3])):
+            got = self.run_asmformat_multi(fmt, subprocess_seed=seed)
+            if not self.compare("asm_format", base, got, f"asm-format of four input files -> one {fmt}: in-process vs fresh interpreter PYTHONHASHSEED={seed}"):
+                return
         for fmt in ("tpf", "agp"):
             a = self.run_asmformat("w1", fmt)
             b = self.run_asmformat("w1", fmt, subprocess_seed=self.case["seeds"][-1])
